@@ -9,8 +9,10 @@ out=$(cargo test --workspace --no-fail-fast --offline 2>&1)
 fails=$(echo "$out" | grep -E "^test result" | awk '{f+=$6} END {print f+0}')
 passes=$(echo "$out" | grep -E "^test result" | awk '{p+=$4} END {print p+0}')
 if [ "$fails" != "0" ] || [ "$passes" -lt 754 ]; then git checkout -q -- .; echo "NOT-CONFIRMED $wt $v: suite $passes passed $fails failed"; exit 1; fi
+cargo build --offline -p rsjsonnet >/dev/null 2>&1
 sh "$d/demo.sh" >/dev/null 2>&1; with=$?
 git checkout -q -- .
+cargo build --offline -p rsjsonnet >/dev/null 2>&1
 sh "$d/demo.sh" >/dev/null 2>&1; without=$?
 if [ "$with" != "0" ] && [ "$without" = "0" ]; then echo "CONFIRMED $wt $v: suite $passes/0, demo with=$with without=$without"; exit 0; fi
 echo "NOT-CONFIRMED $wt $v: demo with=$with without=$without"; exit 1
